@@ -42,6 +42,15 @@ def simple_networks(draw, max_n):
         return ix
 
     for i in range(1, n):
+        # tensor i joins the part built so far through a fresh bond to an
+        # earlier tensor, or (a third of the time) only by also carrying a label
+        # that is there already - which makes that label a hyper index and may
+        # leave tensor i with no ordinary bond at all
+        if labels and draw(st.integers(0, 2)) == 0:
+            ix = draw(st.sampled_from(labels))
+            if sum(ix in t for t in terms) < n - 1:
+                terms[i].append(ix)
+                continue
         j = draw(st.integers(0, i - 1))
         ix = new_label()
         terms[i].append(ix)
